@@ -12,9 +12,9 @@ def parse_literal_alphabet(group):
     """hex lines of spec/L_<group>.tla (the literal alphabet the model used)"""
     out = []
     for line in open(os.path.join(vlib.SPEC, 'L_%s.tla' % group)):
-        m = re.match(r'\s*<<([\d,\s]+)>>', line)
+        m = re.match(r'\s*<<([\d,\s]*)>>', line)
         if m:
-            out.append(''.join('%X' % int(x) for x in m.group(1).split(',')))
+            out.append(''.join('%X' % int(x) for x in m.group(1).split(',') if x.strip()))
     return out
 
 
